@@ -1,6 +1,8 @@
 (* Tie between the facts generated from rpyc/lib/__init__.py (Timeout), rpyc/core/async_.py (AsyncResult),
-   rpyc/core/protocol.py (sync_request / async_request) and rpyc/utils/helpers.py (timed) -- gen/Gen_libinit.v and
-   gen/Gen_async_.v, regenerated on every run -- and what model/Async.v uses.  Every lemma is by computation. *)
+   rpyc/core/protocol.py (sync_request / async_request / _dispatch), rpyc/core/netref.py (syncreq / asyncreq) and
+   rpyc/utils/helpers.py (timed) -- gen/Gen_libinit.v and gen/Gen_async_.v, regenerated on every run -- and what
+   model/Async.v uses.  Every lemma is by computation.  __call__ and add_callback are accepted in two forms (the current
+   one and the repaired one); which one the tree has is the pair of generated facts the model is parameterised with. *)
 From V Require Import lib.Base model.Async gen.Gen_libinit gen.Gen_async_.
 From Coq Require Import String.
 
@@ -16,12 +18,18 @@ Proof. reflexivity. Qed.
 Lemma tie_timeout_copy : Gen_libinit.Timeout_init_copies_fields = ["self.finite = timeout.finite"; "self.tmax = timeout.tmax"]%string.
 Proof. reflexivity. Qed.
 
+(* the two facts are what the programs say *)
+Lemma tie_facts :
+  Gen_async_.callbacks_isolated = Async.isolated_of Gen_async_.AsyncResult_call /\
+  Gen_async_.add_callback_atomic = Async.atomic_of Gen_async_.AsyncResult_call Gen_async_.AsyncResult_add_callback.
+Proof. split; reflexivity. Qed.
+
 (* AsyncResult: the method bodies are the model's skeleton programs *)
-Lemma tie_call : Gen_async_.AsyncResult_call = Async.call_prog.
+Lemma tie_call : Gen_async_.AsyncResult_call = Async.call_prog Gen_async_.callbacks_isolated.
+Proof. reflexivity. Qed.
+Lemma tie_add_callback : Gen_async_.AsyncResult_add_callback = Async.add_callback_prog Gen_async_.add_callback_atomic.
 Proof. reflexivity. Qed.
 Lemma tie_wait : Gen_async_.AsyncResult_wait = Async.wait_prog.
-Proof. reflexivity. Qed.
-Lemma tie_add_callback : Gen_async_.AsyncResult_add_callback = Async.add_callback_prog.
 Proof. reflexivity. Qed.
 Lemma tie_set_expiry : Gen_async_.AsyncResult_set_expiry = Async.set_expiry_prog.
 Proof. reflexivity. Qed.
@@ -40,4 +48,11 @@ Proof. reflexivity. Qed.
 Lemma tie_async_request : Gen_async_.Connection_async_request = Async.async_request_prog.
 Proof. reflexivity. Qed.
 Lemma tie_timed_call : Gen_async_.timed_call_body = Async.timed_call_prog.
+Proof. reflexivity. Qed.
+Lemma tie_syncreq : Gen_async_.netref_syncreq = Async.syncreq_prog.
+Proof. reflexivity. Qed.
+Lemma tie_asyncreq : Gen_async_.netref_asyncreq = Async.asyncreq_prog.
+Proof. reflexivity. Qed.
+(* _dispatch unboxes the reply's value before it looks the callback up (the model's [dispatch] does the same) *)
+Lemma tie_dispatch_reply : Gen_async_.Connection_dispatch_reply = Async.dispatch_reply_order.
 Proof. reflexivity. Qed.
